@@ -37,7 +37,7 @@ def cut(fam, specs, rows, nrg, batch, flavour, codec, om, api=0, stats=1, timeou
     n = specs.count(',') + 1
     return E2('cut/%s/%s' % (OPEN[om], tag(fam, rows, nrg, batch, flavour, codec, api)), H,
               defines=['-DVC_MODE=1', '-DVC_OPEN=%d' % om] + common_defs(specs, rows, nrg, batch, flavour, codec, api, stats, ps),
-              all_lib=True, timeout=timeout, stubs=STUBS, expect_paths_min=40 * n, max_paths=400000, exclude='F-FOOTER-REQUIRED',
+              all_lib=True, timeout=timeout, stubs=STUBS, leaks=True, expect_paths_min=40 * n, max_paths=400000, exclude='F-FOOTER-REQUIRED',
               bounds='concrete tables {%s} (%s content, null pattern %d), %s, %s, writer created by %s, write_statistics=%d; file written by the real writer, then '
                      'EVERY cut length 0..len-1 (one path each), opened via %s; %s' % (specs, 'tail-like' if flavour >= 8 else 'ordinary', flavour & 7, layout_txt(rows, nrg, batch, ps), codec, API[api], stats, OPEN[om], OUTSIDE))
 
@@ -45,7 +45,7 @@ def cut(fam, specs, rows, nrg, batch, flavour, codec, om, api=0, stats=1, timeou
 def sink(fam, specs, rows, nrg, batch, flavour, codec, api=0, timeout=900, ps=1):
     n = specs.count(',') + 1
     return E2('sink-fault/%s' % tag(fam, rows, nrg, batch, flavour, codec, api), H,
-              defines=['-DVC_MODE=2'] + common_defs(specs, rows, nrg, batch, flavour, codec, api, ps=ps), all_lib=True, timeout=timeout, stubs=STUBS, expect_paths_min=8 * n,
+              defines=['-DVC_MODE=2'] + common_defs(specs, rows, nrg, batch, flavour, codec, api, ps=ps), all_lib=True, timeout=timeout, stubs=STUBS, leaks=True, expect_paths_min=8 * n,
               bounds='write history of concrete tables {%s}, %s, %s, writer created by %s; ONE sink fault at every fwrite (short count, or absorbed and reported by the next '
                      'fflush/fclose), fflush and fclose of the history; more than one fault per history is outside; %s' % (specs, layout_txt(rows, nrg, batch, ps), codec, API[api], OUTSIDE))
 
@@ -54,7 +54,7 @@ def abort(fam, specs, rows, nrg, batch, flavour, codec, api=0, fault=False, bado
     n = specs.count(',') + 1
     nm = 'abort%s%s/%s' % ('+sinkfault' if fault else '', '+badcall' if badop else '', tag(fam, rows, nrg, batch, flavour, codec, api))
     return E2(nm, H, defines=['-DVC_MODE=3'] + (['-DVC_ABORT_FAULT'] if fault else []) + (['-DVC_ABORT_BADOP'] if badop else []) + common_defs(specs, rows, nrg, batch, flavour, codec, api, ps=ps),
-              all_lib=True, timeout=timeout, stubs=STUBS, expect_paths_min=3 * n,
+              all_lib=True, timeout=timeout, stubs=STUBS, leaks=True, expect_paths_min=3 * n,
               bounds='carquet_writer_abort after EVERY prefix of the call history (write_batch per column and page, new_row_group) of concrete tables {%s}, %s, %s, writer created by %s%s%s; '
                      'leak check, and no file left behind for the path writer; %s' % (
                          specs, layout_txt(rows, nrg, batch, ps), codec, API[api], '; one sink fault at every fwrite/fflush/fclose of the prefix and of abort itself' if fault else '',
@@ -64,7 +64,7 @@ def abort(fam, specs, rows, nrg, batch, flavour, codec, api=0, fault=False, bado
 def tailsym(specs, rows, nrg, batch, trow, codec, om, api=0, timeout=1500):
     return E2('cut-tail-anyL/%s/%s/r%d-g%d-b%d-t%d/%s/%s' % (OPEN[om], specs, rows, nrg, batch, trow, codec, 'file' if api else 'path'), H,
               defines=['-DVC_MODE=4', '-DVC_OPEN=%d' % om, '-DVC_TROW=%d' % trow, '-DREF_MAX_VALUES=32', '-DREF_MAX_PAGES=8'] + common_defs(specs, rows, nrg, batch, 0, codec, api),
-              all_lib=True, timeout=timeout, stubs=STUBS, fork_max=8192, expect_paths_min=25, max_paths=400000, exclude='F-FOOTER-REQUIRED',
+              all_lib=True, timeout=timeout, stubs=STUBS, leaks=True, fork_max=8192, expect_paths_min=25, max_paths=400000, exclude='F-FOOTER-REQUIRED',
               ref=['ref_parquet_read.c', 'ref_parquet_meta.c', 'ref_thrift.c', 'ref_rle.c', 'ref_snappy.c', 'ref_lz4.c', 'ref_hash.c', 'ref_plain_bss.c'],
               bounds='table {%s}, %s, %s: BYTE_ARRAY value of row %d is <L> "PAR1" with EVERY 32-bit L (symbolic); the prefix that ends right behind it, opened via %s, is rejected '
                      'unless the independent reference reader accepts it as a complete Parquet file; %s' % (specs, layout_txt(rows, nrg, batch), codec, trow, OPEN[om], OUTSIDE))
